@@ -1209,7 +1209,8 @@ class Repr(EnvironmentFilter):
                     if isinstance(old[target],BinaryReward):
                         new_argmax = new['actions'][old['actions'].index(old[target]._argmax)]
                         new[target] = BinaryReward(new_argmax,old[target]._value)
-                    elif isinstance(old[target],DiscreteReward):
+                    elif isinstance(old[target],DiscreteReward) and old[target].actions == old['actions']:
+                        #the reward function lists its actions in the interaction's order so its rewards line up with new['actions']
                         new[target] = DiscreteReward(new['actions'],old[target].rewards)
                     else:
                         new[target] = DiscreteReward(new['actions'],list(map(old[target],old['actions'])))
